@@ -48,4 +48,29 @@ def checkDeps (lf : Label.Facts) (vf : VFacts) (dirs : List Str) (t : VTarget) :
       (if isExperimental lf dirs t.label then shift (checkDeps lf vf dirs t ds) else some (0, .testOnly))
     else shift (checkDeps lf vf dirs t ds)
 
+/-! ### the declared restriction: explicit argument, package default, configuration default
+(src/parse/asp/builtins.go `buildRule` / `defaultFromConfig`, targets.go `populateTarget`) -/
+
+structure DFacts where
+  /-- `defaultFromConfig` treats every FALSY argument (`[]`, `False`) as "not set" instead of only `nil`/`None`. -/
+  unsetIsFalsy : Bool
+
+/-- `visibility` after `defaultFromConfig` and `populateTarget`: `arg` is the rule's argument (`none` = omitted or
+    `None`), `pkgDef` what `package(default_visibility = …)` set (`none` = the configuration default `None`).
+    A value that is not a non-empty list gives the target no visibility entries. -/
+def effVis (df : DFacts) (arg pkgDef : Option (List Label)) : List Label :=
+  let v := match arg with
+    | none => pkgDef
+    | some l => if df.unsetIsFalsy && l.isEmpty then pkgDef else some l
+  match v with
+  | some l => l
+  | none => []
+
+/-- `test_only` likewise (`pkgDef = none` = the configuration default `False`). -/
+def effTestOnly (df : DFacts) (arg pkgDef : Option Bool) : Bool :=
+  let d := match pkgDef with | some b => b | none => false
+  match arg with
+  | none => d
+  | some b => if df.unsetIsFalsy && !b then d else b
+
 end PlzVerif.Visibility
